@@ -63,7 +63,7 @@ def evOn (c : Cfg) (e : Ev) : M α Unit := fun w =>
 def allocate (c : Cfg) (a n : Nat) : M α Nat :=
   tick c.allocThrows .alloc >>= fun _ => fun w =>
     .ok w.next { w with mem := upd w.mem w.next (List.replicate n .raw), owner := upd w.owner w.next a,
-                        live := w.next :: w.live, next := w.next + 1,
+                        live := w.next :: w.live, next := w.next + 2,
                         trace := w.trace ++ [.alloc w.next n a] }
 
 def deallocate (a blk n : Nat) : M α Unit := fun w =>
@@ -73,7 +73,7 @@ def deallocate (a blk n : Nat) : M α Unit := fun w =>
 
 /-- a temporary element-sized object on the stack (stack_temporary, std::swap's tmp) -/
 def allocTemp : M α Nat := fun w =>
-  .ok w.ntmp { w with mem := upd w.mem w.ntmp [.raw], ntmp := w.ntmp + 1 }
+  .ok w.ntmp { w with mem := upd w.mem w.ntmp [.raw], ntmp := w.ntmp + 2 }
 
 def readSlot (blk idx : Nat) : M α (Val α) := fun w =>
   match (w.mem blk)[idx]? with
